@@ -94,13 +94,37 @@ class _FakeDatetimeModule:
 class Request:
     __slots__ = ("op", "text", "variables", "operation_name", "wseed",
                  "faults", "exp", "variant", "nonfinite", "configs",
-                 "ninstr", "mws", "tracer", "skew", "preparsed", "index")
+                 "ninstr", "mws", "tracer", "skew", "preparsed", "index",
+                 "gen", "document", "repeat_of")
 
 
-def _gen_request(draws, spec, bundle, idx, profile, want_mut):
+def _gen_request(draws, spec, bundle, idx, profile, want_mut, tier="quick",
+                 prev=None):
     rs = draws.stream("req%d" % idx)
     req = Request()
     req.index = idx
+    req.document = None
+    req.repeat_of = None
+    if prev is not None and prev.variant == "normal" and \
+            profile.get("activities") and rs.chance(1, 3, "repeat"):
+        # The same document again with other variables (and another world):
+        # what a server with a parsed-document cache does all day.
+        req.repeat_of = prev.index
+        req.gen = prev.gen
+        req.gen.revary(rs)
+        req.op = prev.op
+        req.text = prev.text
+        req.variables = dict(req.op.variables)
+        req.operation_name = prev.operation_name
+        req.variant = "normal"
+        req.preparsed = rs.chance(2, 3, "same_document_object")
+        if req.preparsed:
+            if prev.document is None:
+                prev.document = parse(prev.text)
+            req.document = prev.document
+        req.wseed = rs.below(1 << 30, "wseed")
+        req.nonfinite = False
+        return _finish_request(draws, spec, req, idx, profile, rs, tier)
     kind = "query"
     if want_mut and (profile.get("force_mutation")
                      or rs.chance(1, 2, "opkind")):
@@ -108,6 +132,7 @@ def _gen_request(draws, spec, bundle, idx, profile, want_mut):
     gen = OpGen(rs, spec, max_depth=2 + rs.below(2, "depth"),
                 budget=8 + 8 * rs.below(3, "budget"))
     op = gen.generate(kind)
+    req.gen = gen
     req.variant = "normal"
     req.preparsed = False
     if profile.get("variants") and rs.chance(1, 3, "variant"):
@@ -161,6 +186,11 @@ def _gen_request(draws, spec, bundle, idx, profile, want_mut):
         if not vr:
             raise Discard("validator-reject")
 
+    return _finish_request(draws, spec, req, idx, profile, rs, tier)
+
+
+def _finish_request(draws, spec, req, idx, profile, rs, tier):
+    op = req.op
     # ---- faults: placed on positions enumerated by a fault-free model run
     fs = draws.stream("faults%d" % idx)
     req.faults = {}
@@ -190,6 +220,8 @@ def _gen_request(draws, spec, bundle, idx, profile, want_mut):
     which = profile.get("configs", "all")
     if which == "all":
         req.configs = list(CONFIGS)
+        if tier == "thorough":
+            req.configs.append("threads")  # L2: real threads, line-granular
     elif which == "two":
         a = rs.below(len(CONFIGS), "cfg_a")
         b = rs.below(len(CONFIGS), "cfg_b")
@@ -292,9 +324,12 @@ def run_case(draws, prop, tier="quick"):
     nreq = lo + st.below(hi - lo + 1, "nreq")
     digest = hashlib.sha256()
     sample = {"sdl": bundle.sdl, "requests": []}
+    prev = None
     for idx in range(nreq):
         try:
-            req = _gen_request(draws, spec, bundle, idx, profile, want_mut)
+            req = _gen_request(draws, spec, bundle, idx, profile, want_mut,
+                               tier, prev)
+            prev = req
         except Discard as d:
             res.count("discard:" + d.why)
             if idx == 0:
@@ -306,6 +341,8 @@ def run_case(draws, prop, tier="quick"):
         sreq = {
             "text": req.text, "variables": req.variables,
             "operation_name": req.operation_name, "variant": req.variant,
+            "repeat_of_request": req.repeat_of,
+            "same_document_object": req.document is not None,
             "faults": {"/".join(map(str, k)): v
                        for k, v in req.faults.items()},
             "runs": [],
@@ -349,6 +386,9 @@ def run_case(draws, prop, tier="quick"):
                     res.count("runs_with_concurrency")
                 if out.blocking_waits:
                     res.count("blocking_result_waits", out.blocking_waits)
+                if out.l2 is not None:
+                    for k2, v2 in out.l2.stats.items():
+                        res.count("l2:" + k2, v2)
                 if out.loop_info:
                     res.count("stuck_tasks", out.loop_info["stuck_tasks"])
                     res.count("loop_unhandled", out.loop_info["unhandled"])
@@ -373,6 +413,10 @@ def run_case(draws, prop, tier="quick"):
             for k, v in req.faults.items():
                 res.count("placed:" + v)
         res.count("variant:" + req.variant)
+        if req.repeat_of is not None:
+            res.count("probe:same_document_other_variables")
+            if req.document is not None:
+                res.count("probe:same_document_object_reused")
     res.samples = sample
     res.digest = digest.hexdigest()
     return res
@@ -420,7 +464,8 @@ def _execute(config, bundle, spec, req, sched, policy):
 
     world = World(spec, req.wseed, req.faults, nonfinite=req.nonfinite)
     request = {
-        "text": parse(req.text) if req.preparsed else req.text,
+        "text": (req.document if req.document is not None
+                 else parse(req.text)) if req.preparsed else req.text,
         "variables": req.variables,
         "operation_name": req.operation_name,
     }
@@ -443,8 +488,11 @@ def _evaluate(res, prop, config, req, out, hooks):
         raise HarnessError("step cap hit in %s" % config)
     exp = req.exp
     if out.status == "hang":
-        V.append(Violation(("C08",), "hang", (config,),
-                           "quiescent but result not done"))
+        why = str(out.exc)
+        V.append(Violation(
+            ("C08",), "hang",
+            (config, "worker-deadlock") if "blocked" in why else (config,),
+            why or "quiescent but result not done"))
         return
     if req.variant == "normal":
         if exp.crash:
